@@ -63,13 +63,20 @@ string sw(string v) {
   }
   return "default";
 }
+// switch tables of every small shape: a loaded binary has to patch each string label back into a pointer
+string sw1(string v) { switch (v) { case "only": return "one"; } return "none"; }
+string sw1d(string v) { switch (v) { case KS: return "ks"; default: return "dflt"; } }
+string sw2(string v) { switch (v) { case "only": return "one"; case "other %(cv)d": return "two"; } return "none"; }
+string isw(int v) { switch (v) { case 5: return "five"; } return "n"; }
+string rsw(int v) { switch (v) { case 1..3: return "r"; case 100: return "h"; default: return "d"; } }
 mixed extra() {
   class Pt p = new(class Pt);
   function f = (: $1 + K :);
   function g = function(int a) { return a * %(cv)d; };
   p->x = K + cv; p->s = parent_name();
   return ({ p->x, p->s, evaluate(f, 1), evaluate(g, 3), parent_fn(2), sw("a"), sw(KS), sw("a longer label %(cv)d"), sw("zz"), sw(0), cv, pg,
-            psw("x"), psw(parent_name()), psw("nope"), parent_k(), vsum(), va(), vb(), vc(), vd(), ve(), function_exists("parent_fn", this_object()), sizeof(functions(this_object())) });
+            psw("x"), psw(parent_name()), psw("nope"), parent_k(), vsum(), va(), vb(), vc(), vd(), ve(), function_exists("parent_fn", this_object()), sizeof(functions(this_object())),
+            sw1("only"), sw1("x"), sw1d(KS), sw1d("only"), sw2("only"), sw2("other %(cv)d"), sw2("q"), isw(5), isw(6), rsw(2), rsw(100), rsw(7) });
 }
 void fail_here() {
   int z;
